@@ -42,7 +42,7 @@ def confirm(pid: str, k: int):
             return f"NOT confirmed: {ran}"
         dest.mkdir(parents=True, exist_ok=True)
         # the demo refers to the scratch worktree path: make it tree-agnostic (it imports octave_mcp from PYTHONPATH)
-        text = demo.read_text().replace(f"/tmp/seed/wt3_{pid}", "$REPO").replace(f"/tmp/seed/wt_{pid}", "$REPO")
+        text = demo.read_text().replace(f"/tmp/seed/wt4_{pid}", "$REPO").replace(f"/tmp/seed/wt3_{pid}", "$REPO").replace(f"/tmp/seed/wt_{pid}", "$REPO")
         (dest / "demo.py").write_text(text)
         shutil.copy(patch, dest / "patch.diff")
         m = json.load(open(meta)) if meta.exists() else {}
